@@ -61,3 +61,20 @@ func init() {
 		os.Exit(0)
 	}
 }
+
+// check debug-sx <version> <source…>: tree of a program in SX notation, errors, printed and formatted text.
+func init() {
+	if len(os.Args) > 3 && os.Args[1] == "debug-sx" {
+		drive.SetBlockSize(4)
+		for _, src := range os.Args[3:] {
+			res := drive.Parse([]byte(src), parseVer(os.Args[2]), true)
+			fmt.Printf("%q under %s\n  errors: %s\n", src, os.Args[2], errList(res.Errs))
+			if res.Root != nil {
+				fmt.Printf("  tree: %s\n", allStmtsSX(res.Root))
+				out, pan, _ := formatPrint(res.Root)
+				fmt.Printf("  formatted: %q %v\n", out, pan)
+			}
+		}
+		os.Exit(0)
+	}
+}
